@@ -286,6 +286,92 @@ func (c *Ctx) EXT(rule string) []report.Obligation {
 	} else {
 		out = append(out, anchorViolation(rule+"-6", "loader.ApplyExtends"))
 	}
+	// EXT-8: the post-processors (!reset / !override tags) of every file of the chain apply to the base, the
+	// extending file's own included: the list ranged over to post-process the cloned base, and the one handed to the
+	// recursive resolution, is the list received plus additions (append) - never a list started afresh.
+	if f := c.P.Func("loader.applyServiceExtends"); f != nil {
+		var postParam *ssa.Parameter
+		for _, pa := range f.Params {
+			if sl, ok := pa.Type().Underlying().(*types.Slice); ok {
+				if nt, isN := sl.Elem().(*types.Named); isN && strings.Contains(nt.Obj().Name(), "PostProcessor") {
+					postParam = pa
+				}
+			}
+		}
+		if postParam == nil {
+			out = append(out, bad(rule+"-8", "applyServiceExtends :: post-processors accumulate", c.P.Pos(f.Pos()), "cannot find the post-processor list parameter"))
+		} else {
+			var fromParam func(v ssa.Value, d int, seen map[ssa.Value]bool) bool
+			fromParam = func(v ssa.Value, d int, seen map[ssa.Value]bool) bool {
+				if v == ssa.Value(postParam) {
+					return true
+				}
+				if d == 0 || seen[v] {
+					return seen[v]
+				}
+				seen[v] = true
+				switch x := v.(type) {
+				case *ssa.Phi:
+					for _, e := range x.Edges {
+						if !fromParam(e, d-1, seen) {
+							return false
+						}
+					}
+					return true
+				case *ssa.Call:
+					if bi, ok := x.Call.Value.(*ssa.Builtin); ok && bi.Name() == "append" {
+						return fromParam(x.Call.Args[0], d-1, seen)
+					}
+				case *ssa.Slice:
+					return fromParam(x.X, d-1, seen)
+				}
+				return false
+			}
+			good, n := true, 0
+			where := c.P.Pos(f.Pos())
+			check := func(v ssa.Value, pos string) {
+				n++
+				if !fromParam(v, 8, map[ssa.Value]bool{}) {
+					good, where = false, pos
+				}
+			}
+			// the list handed to the recursive call
+			for _, rc := range c.recursiveCalls(f) {
+				for i, a := range rc.Common().Args {
+					if i < len(f.Params) && f.Params[i] == postParam {
+						check(a, c.P.InstrPos(rc))
+					}
+				}
+			}
+			// the list ranged over where Apply is invoked
+			for _, b := range f.Blocks {
+				for _, in := range b.Instrs {
+					call, ok := in.(*ssa.Call)
+					if !ok || !call.Call.IsInvoke() || call.Call.Method.Name() != "Apply" {
+						continue
+					}
+					if ld, isLd := call.Call.Value.(*ssa.UnOp); isLd {
+						if ia, isIA := ld.X.(*ssa.IndexAddr); isIA {
+							check(ia.X, c.P.InstrPos(call))
+						}
+					}
+				}
+			}
+			// ... or handed to a helper of the package that applies it
+			for _, cs := range callSites(f, func(com *ssa.CallCommon) bool {
+				cal := com.StaticCallee()
+				return cal != nil && cal != f && c.P.InModule(cal) && strings.HasPrefix(c.P.FuncID(cal), "loader.")
+			}) {
+				for _, a := range cs.Common().Args {
+					if types.Identical(a.Type(), postParam.Type()) {
+						check(a, c.P.InstrPos(cs))
+					}
+				}
+			}
+			out = append(out, verdict(good && n >= 2, rule+"-8", "applyServiceExtends :: post-processors accumulate", where,
+				"the list applied to the base and the list handed down are the received list, extended with append", "the list of post-processors is started afresh on some path: the !reset / !override tags of the extending file (or of the files before it in the chain) are no longer applied to the base it inherits"))
+		}
+	}
 	// EXT-7: an `extends` that names a file is resolved by loading that file. Whether the loading function is
 	// reached depends only on what the document says (presence tests, type tests, nil tests) and on errors - not
 	// on a predicate computed from paths or options ("it is the current file anyway"): such a shortcut resolves
